@@ -135,6 +135,17 @@ def check_layer_ab(pid, tier, seed, rep):
                       dict(package_dir=os.path.join(D["srcdir"], f["pkg"]), injector=f["inj"], scenario=f.get("scenario"), detail=f["detail"],
                            events=f.get("events"), how="rerun: python3 tools/check.py %s --replay <this file>" % pid),
                       "%s %s: %s" % (f["pkg"], f["inj"], f["detail"][:300]))
+    if pid == "C02":
+        # hand-written programs of the naming stream check their injector's value themselves (panic "wrong result"): a
+        # generated local that shadows a package-level variable compiles and silently changes the value
+        import stage_n
+        N = stage_n.stage(seed, tier)
+        for r in N["records"]:
+            if not r["expect"] and r["gen_rc"] == 0 and r["vet_rc"] == 0 and r.get("run_rc"):
+                viol.append(dict(pkg=r["name"], inj="<main>", detail="the injector's value differs from the sequential value the program expects: " + r.get("run_err", "")[-300:], scenario=None))
+                rep.violation("run-%s" % r["name"], dict(package_dir=os.path.join(N["srcdir"], r["dir"]), meta=r["meta"], output=r.get("run_err"), generated=r.get("band"),
+                                                         how="cd <package_dir> && kessoku <targets> && go run <package>"),
+                              "%s: the generated injector returns a wrong value (%s)" % (r["name"], r.get("run_err", "").strip().splitlines()[-1][-200:] if r.get("run_err", "").strip() else "non-zero exit"))
     # model-level search on the observed programs (verified checker + greedy explorer of coq/Check.v)
     expl = {"C01": 1, "C03": 2}.get(pid)
     nmodel = 0
@@ -173,7 +184,8 @@ def check_layer_ab(pid, tier, seed, rep):
                                                    theorem="Layer B (generator model) of Properties/%s.v no longer describes the code" % pid,
                                                    first_case=dict(pkg=r["pkg"], file=r["file"], injector=r["name"], why=why, model_input=S["case_text"].get(str(r["id"]))),
                                                    disagreeing_cases=len(bad), observed_programs_failing_verified_checker=[(x["pkg"], x["name"], x["checker_code"]) for x in unchecked][:10],
-                                                   dynamic_search="%d scenarios on %d injectors found no failing execution" % (D["scenarios"], D["injectors"])),
+                                                   dynamic_search="%d scenarios on %d injectors found no failing execution" % (D["scenarios"], D["injectors"]),
+                                                   packages_that_do_not_build=[dict(pkg=f["pkg"], error=f["detail"][-600:]) for f in D["findings"] if f["prop"] == "C04" and "does not build" in f["detail"]][:6]),
                       "model/implementation disagreement on %d declaration(s), e.g. %s %s: %s" % (len(bad), r["pkg"], r["name"], why[0][:200]), True)
     cov.update(traces_validated_against_impl=D.get("traces_replayed", 0), executions=D["scenarios"], scenario_kinds=D["kinds"], injectors_run=D["injectors"],
                input_distribution=shape_stats(S), trusted_base=TRUSTED,
@@ -422,7 +434,9 @@ def check_c12(pid, tier, seed, rep):
     e2e = dict(packages=0, functions=0, identifiers=0)
     dirs = []
     N = stage_n.stage(seed, tier)
-    dirs += [os.path.join(N["srcdir"], r["dir"]) for r in N["records"] if not r["expect"] and r["gen_rc"] == 0]
+    for r in N["records"]:
+        if not r["expect"] and r["gen_rc"] == 0:
+            dirs += [os.path.normpath(os.path.join(N["srcdir"], r["dir"], sub)) for sub in r["meta"].get("vet_pkgs", ["."])]
     S = stage_s.stage(seed, tier)
     dirs += sorted({os.path.join(S["srcdir"], r["pkg"]) for r in S["records"] if r["kind"] == "valid" and r["id"] and r["rc"] == 0})
     for d in dirs:
@@ -722,6 +736,13 @@ def check_c13(pid, tier, seed, rep):
                                                        wire_signature=r.get("wire_sig"), kessoku_signature=r.get("kessoku_sig"),
                                                        how="<package_dir>_w: wire gen; <package_dir>_k: kessoku migrate && kessoku kessoku.go; run both drivers on scen.json"),
                           "%s: %s" % (r["name"], probs[0][:300]))
+    for r in W.get("directed", {}).get("records", []):
+        probs = [p for p in r["problems"] if not p.startswith("C14:")]
+        if probs:
+            nviol += 1
+            rep.violation("directed-%s" % r["name"], dict(package_dir=os.path.join(W["directed"]["srcdir"], "d" + r["name"]), problems=probs, migrated=r.get("kessoku_go"),
+                                                           how="<package_dir>: wire gen && go run .; <package_dir>_k: kessoku migrate -o kessoku.go ./ && rm wire.go && kessoku kessoku.go && go run ."),
+                          "directed configuration %s: %s" % (r["name"], probs[0][:300]), probs[0].startswith("HARNESS"))
     # model (coq/Wire.v) vs the terms both real injectors returned
     cases, meta = stage_w.coq_cases(W)
     mism = []
@@ -775,6 +796,13 @@ def check_c14(pid, tier, seed, rep):
             rep.violation("case-%s" % r["name"], dict(package_dir=os.path.join(W["srcdir"], r["name"]), problems=probs[:6], migrated=r.get("kessoku_go"),
                                                        how="cd <package_dir>_k && kessoku migrate -o kessoku.go ./ && gofmt -l kessoku.go && (wire files set aside) go vet ."),
                           "%s: %s" % (r["name"], probs[0][:300]))
+    for r in W.get("directed", {}).get("records", []):
+        probs = [p for p in r["problems"] if p.startswith("C14:") or "refuses the migrated" in p or "migrate failed" in p]
+        if probs:
+            nviol += 1
+            rep.violation("directed-%s" % r["name"], dict(package_dir=os.path.join(W["directed"]["srcdir"], "d" + r["name"] + "_k"), problems=probs, migrated=r.get("kessoku_go"),
+                                                           how="cd <package_dir> && kessoku migrate -o kessoku.go ./ && rm wire.go && gofmt -l kessoku.go && go vet ."),
+                          "directed configuration %s: %s" % (r["name"], probs[0][:300]))
     migrate_known(pid, rep)
     for b in W["invalid"]:
         if b["rc"] == 0 or b["wrote"]:
@@ -867,6 +895,7 @@ def main():
     cov.setdefault("checker_cmd", "make -C coq")
     cov.setdefault("trusted_base", TRUSTED)
     rc = rep.finish()
+    vlib.trim_caches()
     vlib.write_evidence(pid, tier, seed, cov, TRUSTED, len(rep.violations))
     return rc
 
